@@ -172,6 +172,7 @@ class Sched:
         self.dec = decisions
         self.now = 0.0
         self.tasks = []
+        self.live = []
         self.current = None
         self.steps = 0
         self.by_ident = {}
@@ -211,6 +212,7 @@ class Sched:
         if cur is not None:
             t.sigmask = set(cur.sigmask)
         self.tasks.append(t)
+        self.live.append(t)
         proc.tasks.append(t)
 
         def runner():
@@ -261,7 +263,10 @@ class Sched:
         en = []
         timed = []
         now = self.now
-        for t in self.tasks:
+        live = self.live
+        if len(live) > 8 and any(t.state == DONE for t in live):
+            live[:] = [t for t in live if t.state != DONE]
+        for t in live:
             st = t.state
             if st == RUNNABLE:
                 en.append(t)
@@ -412,7 +417,7 @@ class Sched:
             raise SimKilled()
 
     def _switch_from_done(self):
-        if all(t.state == DONE for t in self.tasks):
+        if all(t.state == DONE for t in self.live):
             self.outcome = "complete"
             self.teardown = True
             self.done_lock.release()
